@@ -135,6 +135,8 @@ def odd_exception(shape, text):
         e.add_note('a note \x01 with control characters')
         e.__notes__.append(42)
         return e
+    if shape == 'syntaxerr':
+        return SyntaxError(text, ('generated.py', 3, 5, 'x = (\n'))
     if shape == 'args':
         return OSError(2, text, 'file\x00name')
     raise AssertionError(shape)
